@@ -361,7 +361,7 @@ MUTANTS = [
     dict(file=CONV, func="Conv2D.presyn_receptive", old='"b (c kh kw) l ... -> b (...) c kh kw l"', new='"b (c kw kh) l ... -> b (...) c kh kw l"', contracts=["Conv2D.layouts"], name="seed C05d: receptive view decomposes the unfolded rows as (c kw kh)"),
     dict(file=CONV, func="Conv2D.selector", old='"f c h w -> 1 (c h w) 1 f"', new='"f c h w -> 1 (c w h) 1 f"', contracts=["Conv2D.layouts"], name="seed C06d: delay selector flattens the kernel as (c w h)"),
     dict(file=CONV, func="Conv2D.presyn_receptive", old='"b (c kh kw) l ... -> b (...) c kh kw l"', new='"b (kh kw c) l ... -> b (...) c kh kw l"', contracts=["Conv2D.layouts"], name="seed C18d: receptive view decomposes the unfolded rows as (kh kw c)"),
-    dict(file=CONV, func="Conv2D.forward", old="oh=self.outheight,\n                ow=self.outwidth,\n            )\n\n        # add bias", new="oh=self.outwidth,\n                ow=self.outheight,\n            )\n\n        # add bias", contracts=["Conv2D.layouts"], name="undelayed forward folds the output with height and width sizes swapped"),
+    dict(file=CONV, func="Conv2D.forward", old="oh=self.outheight,\n                ow=self.outwidth,\n            )\n        else:", new="oh=self.outwidth,\n                ow=self.outheight,\n            )\n        else:", contracts=["Conv2D.layouts"], name="delayed forward folds the output with height and width sizes swapped"),
     dict(file="inferno/neural/modeling.py", func="Updater.forward", old="                setattr(module, p, self.updates_[p](getattr(module, p), **kwargs))", new="                getattr(module, p).data = self.updates_[p](getattr(module, p), **kwargs)", contracts=["LinearLateral.trainer_update_keeps_diagonal"], name="updates written to the parameter data directly, bypassing the masked setter"),
     dict(file=LIN, func="LinearDirect.forward", name="seed C05: in-place arithmetic on the tensor returned by the synapse", contracts=["LinearDirect.forward"],
          old="        if self.biased:\n            res = res * self.weight + self.bias\n        else:\n            res = res * self.weight\n", new="        res *= self.weight\n        if self.biased:\n            res += self.bias\n"),
